@@ -14,12 +14,12 @@ REQUIRED_THEOREMS = [
     'C20_row_routing', 'C20_row_routing_pd', 'C20_row_routing_pk', 'C20_row_routing_sound',
     'C20_row_routing_pd_legacy_partial', 'C20_ids_nodup', 'C20_row_in_own_trace',
     'C20_pd_nonnumeric_id_counterexample', 'C20_pdpredictive_default_nan_counterexample',
-    'C20_prediction_scatter', 'C20_simulation', 'C20_prediction_dose', 'C20_band_encloses_any',
+    'C20_palette_every_individual', 'C20_palette_zip_counterexample', 'C20_prediction_scatter', 'C20_simulation', 'C20_prediction_dose', 'C20_band_encloses_any',
     'C20_band_encloses', 'C20_band_encloses_robust', 'C20_band_limits_are_samples', 'C20_band_nested',
     'C20_band_ordered', 'C20_polygon_decode', 'C20_prediction_bands', 'C20_no_mutation',
     'C20_residual_routing', 'C20_residual_completes', 'C20_residual_legacy_partial',
     'C20_residual_readonly_counterexample']
-RULE = ('routing: long-format frames with 1-5 individuals (IDs int / float / str, some missing), 1-3 '
+RULE = ('routing: long-format frames with 1-10 or (30 % of the frames) 11-26 individuals, i.e. more than any fixed-size table of chi.plots, (IDs int / float / str, some missing), 1-3 '
         'observables, interleaved rows, dose rows, missing values in every column, custom column keys, '
         'shuffled index, default / explicit / absent observable, all four figure classes + add_simulation; '
         'bands: 1-4 times, 1-48 samples per time on a coarse grid (ties) or continuous, missing samples, '
@@ -144,13 +144,17 @@ KEYSETS = [
 def gen_frame(rng, force=None):
     """rows of a long-format PKPD frame in random order"""
     id_kind = force or ['int', 'int', 'float', 'str', 'str'][int(rng.integers(5))]
-    n_ids = int(rng.integers(1, 6))
+    # cohort size: mostly a handful; regularly more individuals than any fixed-size table in chi.plots has
+    # entries (the qualitative colour palette has 10, the band palette 7)
+    many = bool(rng.random() < 0.3)
+    n_ids = int(rng.integers(11, 27)) if many else int(rng.integers(1, 11))
     if id_kind == 'int':
         ids = [int(v) for v in rng.choice(np.arange(0, 60), n_ids, replace=False)]
     elif id_kind == 'float':
         ids = [float(v) + float(rng.choice([0.0, 0.5])) for v in rng.choice(np.arange(0, 60), n_ids, replace=False)]
     else:
-        ids = [str(v) for v in rng.choice(['a', 'b7', 'pat 3', '11', 'x-1', 'Z', '007'], n_ids, replace=False)]
+        pool = ['a', 'b7', 'pat 3', '11', 'x-1', 'Z', '007'] + ['s%02d' % j for j in range(30)]
+        ids = [str(v) for v in rng.choice(pool, n_ids, replace=False)]
     n_obs = int(rng.integers(1, 4))
     obs = [str(v) for v in rng.choice(['conc', 'tumour', 'c(t)', 'bm 2', 'A'], n_obs, replace=False)]
     p_miss = float(rng.choice([0.0, 0.0, 0.1, 0.25]))
@@ -160,7 +164,7 @@ def gen_frame(rng, force=None):
         for o in obs:
             if rng.random() < 0.15:
                 continue            # this individual has no measurement of this observable
-            for t in rng.choice(tgrid, int(rng.integers(1, 6)), replace=rng.random() < 0.3):
+            for t in rng.choice(tgrid, int(rng.integers(1, 4 if n_ids > 6 else 6)), replace=rng.random() < 0.3):
                 v = float(np.round(rng.uniform(0.1, 9.0), 3))
                 rows.append([i, float(t), o, v, None, None])
         for _ in range(int(rng.integers(0, 3))):
@@ -352,7 +356,8 @@ def routing_case(ctx, chi, fr, observable_mode, k, observable=_UNSET):
     obs_code = None if observable is None else (obt.index(observable) if observable in obt else len(obt))
     spec = spec_routing(srows, observable)
     n_ind = 0 if spec is None else len(spec[1])
-    cls = '%s/%s/%s' % (fr['id_kind'], observable_mode, 'ids%d' % min(n_ind, 3))
+    cls = '%s/%s/%s' % (fr['id_kind'], observable_mode,
+                        'ids>10' if n_ind > 10 else 'ids%d' % min(n_ind, 3))
     ctx.case('routing:' + cls, nontrivial=('routing:%s/obs%d' % (cls, len(obt))) if n_ind >= 2 and len(obt) >= 2
              else False, sample=inp)
     mspec = ctx.model('C20.spec', w, obs_code)
@@ -718,9 +723,10 @@ def band_errors(ctx, chi):
 # ----------------------------------------------------------------------------------------
 def gen_residual(rng):
     id_kind = ['int', 'int', 'float', 'str', 'str'][int(rng.integers(5))]
-    n_ids = int(rng.integers(1, 5))
+    n_ids = int(rng.integers(11, 24)) if rng.random() < 0.25 else int(rng.integers(1, 6))
     if id_kind == 'str':
-        ids = [str(v) for v in rng.choice(['a', 'b', 'c9', 'd', 'pat 1'], n_ids, replace=False)]
+        ids = [str(v) for v in rng.choice(['a', 'b', 'c9', 'd', 'pat 1'] + ['s%02d' % j for j in range(25)], n_ids,
+                                          replace=False)]
     elif id_kind == 'float':
         ids = [float(v) + float(rng.choice([0.0, 0.5])) for v in rng.choice(np.arange(1, 30), n_ids, replace=False)]
     else:
@@ -929,7 +935,7 @@ def run_one(ctx, chi, kind, k):
 def run(ctx):
     chi = core.import_chi()
     corpus(ctx, chi)
-    n = {'quick': (100, 65, 90), 'thorough': (1650, 1000, 1500)}[ctx.tier]
+    n = {'quick': (85, 65, 85), 'thorough': (1250, 1000, 1150)}[ctx.tier]
     for k in range(n[0]):
         run_one(ctx, chi, 'routing', k)
     for k in range(n[1]):
